@@ -30,7 +30,7 @@ SCALAR_ATTRS = {"shape", "dtype", "size", "ndim", "nbytes", "itemsize", "n_class
 #: methods returning a new object that shares no memory with the receiver
 FRESH_METHODS = {"copy", "astype", "tolist", "sum", "mean", "max", "min", "any", "all", "dot", "std", "var",
                  "argmax", "argmin", "argsort", "cumsum", "prod", "flatten", "nonzero", "todense", "toarray",
-                 "tocsr", "tocsc", "round", "clip", "repeat", "take", "conj", "trace", "searchsorted",
+                 "tocsr", "tocsc", "round", "clip", "repeat", "take", "trace", "searchsorted",
                  "item", "keys", "items", "values", "get", "count", "index", "format", "join", "split",
                  "startswith", "endswith", "strip", "lower", "upper", "replace", "union", "intersection",
                  "difference", "most_common", "predict", "predict_proba", "decision_function",
@@ -41,7 +41,7 @@ FRESH_METHODS = {"copy", "astype", "tolist", "sum", "mean", "max", "min", "any",
                  "get_feature_names_out", "tostring", "tobytes", "encode", "decode", "pop", "popitem",
                  "get_fct_inv", "predict_all", "predict_sorted", "enumerate_leaves_index"}
 #: methods returning a view / the receiver itself
-ALIAS_METHODS = {"ravel", "reshape", "view", "squeeze", "transpose", "swapaxes", "fit", "set_params",
+ALIAS_METHODS = {"ravel", "reshape", "view", "squeeze", "transpose", "swapaxes", "fit", "set_params", "conj", "conjugate",
                  "partial_fit", "__iter__", "setdefault", "diagonal", "iloc", "loc"}
 #: methods that write into the receiver
 INPLACE_METHODS = {"sort", "fill", "resize", "itemset", "put", "partition", "setflags", "setfield",
@@ -86,6 +86,15 @@ ALIAS_FUNCS = {"asarray", "ascontiguousarray", "asfortranarray", "asanyarray", "
                "check_consistent_length", "_check_sample_weight", "_num_samples", "broadcast_to",
                "swapaxes", "moveaxis", "flip", "fliplr", "flipud", "rollaxis", "diag", "diagonal", "triu",
                "tril", "nan_to_num", "real", "imag", "safe_sparse_dot", "_check_y"}
+
+#: numpy ufuncs: a positional argument beyond the inputs is the `out` array (written in place)
+UNARY_UFUNCS = {"abs", "absolute", "sign", "reciprocal", "exp", "log", "log1p", "expm1", "sqrt", "square", "isnan",
+                "isinf", "isfinite", "logical_not", "floor", "ceil", "negative", "rint", "fabs", "exp2", "log2",
+                "log10", "sin", "cos", "tan", "tanh", "cbrt", "invert", "positive", "trunc", "signbit"}
+BINARY_UFUNCS = {"add", "subtract", "multiply", "divide", "true_divide", "floor_divide", "mod", "power", "pow",
+                 "maximum", "minimum", "fmax", "fmin", "logical_and", "logical_or", "logical_xor", "arctan2",
+                 "hypot", "remainder", "fmod", "greater", "less", "equal", "not_equal", "greater_equal", "less_equal",
+                 "bitwise_and", "bitwise_or", "bitwise_xor", "copysign", "divmod", "matmul"}
 
 SKIP_METHODS = {"get_params", "set_params", "__init__", "__repr__", "__str__", "__getstate__",
                 "__setstate__", "__eq__", "__hash__", "test_equality", "__sklearn_tags__", "_more_tags",
@@ -529,6 +538,13 @@ class Translator:
                 b = self.base_name(call.args[0], env)
                 if b:
                     out.append(("atom", ("mutate", b)))
+            # ufunc called with its output array given positionally: numpy.abs(x, y), numpy.add(x, y, z)
+            if self._is_module(recv):
+                nin = 1 if f.attr in UNARY_UFUNCS else (2 if f.attr in BINARY_UFUNCS else None)
+                if nin is not None and len(call.args) > nin:
+                    b = self.base_name(call.args[nin], env)
+                    if b:
+                        out.append(("atom", ("mutate", b)))
             # self.method(...)
             if isinstance(recv, ast.Name) and recv.id == "self":
                 r = self.uni.find_method(self.cname, f.attr)
